@@ -63,6 +63,15 @@ CHECKS = {
    text='Bounded exhaustive exploration of importance specifications on 3-5 level-0 cells whose numbers are not in card order: per cell the source (IMP:N, IMP:N,P, IMP:N+IMP:P in both orders, none), data cards imp:n / imp:p expanded or with nR, nM, nI shorthand, values 0/1/2 at every position; the set of VOLU ids must equal the cells whose maximum importance over particle types is non-zero and the NOTE line must list exactly the others.',
    note='Trusted: importance = maximum over the particle types (property statement). Decks with all importances zero are not generated.',
    tech='explicit choice-tree enumeration of importance layouts; set comparison of emitted volumes and NOTE line'),
+
+ 'C15': dict(cat='model_checking', ref='4/C15',
+   text='Bounded exhaustive exploration of LIKE n BUT cards: base cell (void/material, three geometries, five option sets) x every subset of the overrides {MAT, RHO, U, FILL, TRCL, *TRCL, IMP} with two values each and both orders, chains LIKE-of-LIKE of length 2 and 3, base before or after, all within an iterated deviation bound; differential oracle: the generator expands the abbreviation and both decks are converted with the real entry point; volume ids, membership of every volume at witnesses + lattice, compositions and GEOMCOMP association must be equal.',
+   note='Trusted: LIKE n BUT = copy of the card with the listed parameters replaced. The oracle is differential (no MCNP semantics needed beyond that).',
+   tech='explicit choice-tree enumeration; differential comparison LIKE deck vs generator-expanded deck'),
+ 'C16': dict(cat='model_checking', ref='4/C16',
+   text='Complete product of flag placements ({none,*,+} on a plane and a sphere bounding converted cells, on a plane used only by an importance-0 cell, on an unused plane), identical unflagged copies with lower/higher/both numbers (used or unused), flagged macrobody, with and without --skip-deduplication; the BOUNDARY_CONDITION block must contain exactly one entry of the right kind per flagged surface bounding a converted cell, naming a SURF of the file with the flagged polynomial, and nothing else; a flagged macrobody must be rejected.',
+   note='Trusted: * -> REFLECTION, + -> COSINUS. Two flagged surfaces with the same locus are not generated.',
+   tech='explicit enumeration (complete product); BC block joined with polynomial identification of the designated SURF'),
 }
 NA_REASON = 'check not built yet in this build round (planned, see DESIGN.md section 4); no claim is made'
 
